@@ -229,6 +229,13 @@ def rule_shortcircuit(ctx, p: Project):
                     last = e.attr if isinstance(e, ast.Attribute) else None
                     oks.append((last in Q) or ((S, t) in SUBST_ALIASES))
                 ok = guarded and len(sib) >= 1 and all(oks)
+                if guarded and not ok and (f.name in Q or (S, f.name) in RESULT_ALIASES):
+                    # `x = slot if present else <computed here>; return x` inside the very function the slot was recorded from: the early return of the slot, written with one exit
+                    binds_x = [n_ for n_ in f.body_nodes() if isinstance(n_, (ast.Assign, ast.AugAssign)) and any(isinstance(t_, ast.Name) and t_.id == X for t_ in (n_.targets if isinstance(n_, ast.Assign) else [n_.target]))]
+                    rets_x = wire.returns_of(f)
+                    if len(binds_x) == 1 + len(sib) and all(isinstance(n_, ast.Assign) for n_ in binds_x) and rets_x and all(norm_text(r_.value) == X for r_ in rets_x) \
+                            and not any(isinstance(n_, ast.Assign) and isinstance(n_.targets[0], (ast.Subscript, ast.Attribute)) and norm_text(n_.targets[0]).startswith(X) for n_ in f.body_nodes()):
+                        ok = True
                 ctx.ob(rule, inst + ":substitute", ok, where=f, node=stmt, construct=f"{f.qualname}: {X} = {txt} | else {[norm_text(e)[:50] for e in sib]}",
                        detail=f"{X} = slot, otherwise {[norm_text(e) for e in sib]}",
                        message=f"`{S}` (recorded from {sorted(Q) or 'nothing'}) is substituted for {[norm_text(e)[:50] for e in sib]}, which is not the quantity it was recorded from: "
@@ -249,6 +256,9 @@ def rule_shortcircuit(ctx, p: Project):
         if ok:
             tv = loops[0].target
             ok = isinstance(tv, ast.Tuple) and len(tv.elts) == 2 and len(loops[0].body) == 1 and norm_text(loops[0].body[0]) == f"cls_dict[{norm_text(tv.elts[0])}] = {norm_text(tv.elts[1])}"
+        if not ok:
+            rets_h = wire.returns_of(h)
+            ok = len(rets_h) == 1 and not loops and norm_text(rets_h[0].value).replace(" ", "") in ("dict(zip(self.cls_list_from(cls=cls),preload_dict.values()))",)   # the same pairing in one expression
         ctx.ob(rule, "_updated_cls_key_dict_from", ok, where=h, node=h.node, construct="_updated_cls_key_dict_from body",
                message="the helper must pair the linear objects of the class, in order, with the preloaded values unchanged")
     except AnchorMissing:
@@ -391,7 +401,7 @@ def rule_wiring(ctx, p: Project):
            message="the stored w-tilde object must be checked against the noise-map of the dataset being fitted")
     cn = p.func("autoarray.dataset.abstract.w_tilde:AbstractWTilde.check_noise_map")
     ifs = [n for n in cn.node.body if isinstance(n, ast.If)]
-    ok = len(ifs) == 1 and norm_text(ifs[0].test) in ("noise_map[0] != self.noise_map_value", "self.noise_map_value != noise_map[0]") and any(isinstance(x, ast.Raise) for x in ifs[0].body)
+    ok = len(ifs) == 1 and norm_text(wire.inline_locals(cn, ifs[0].test)) in ("noise_map[0] != self.noise_map_value", "self.noise_map_value != noise_map[0]") and any(isinstance(x, ast.Raise) for x in ifs[0].body)
     ctx.ob(rule, "check_noise_map body", ok, where=cn, node=cn.node, construct=norm_text(ifs[0].test) if ifs else "no test",
            message="check_noise_map must raise when the first noise-map value differs from the one the w-tilde object was built with")
     # interferometer factory: same argument discipline
